@@ -99,6 +99,7 @@ type loopInfo struct {
 
 type Frame struct {
 	ex        *Exec
+	noAssume  bool // the clause being obliged is check-only (not assumed afterwards)
 	fn        *ssa.Function
 	spec      *FuncSpec
 	vals      map[ssa.Value]*Val
@@ -204,7 +205,7 @@ func (fr *Frame) oblige(kind, text, cond string, pos token.Pos) *Obl {
 	fr.ex.obls = append(fr.ex.obls, o)
 	// after the check the program continues only if it held (array equalities
 	// of heap summaries are not re-assumed: the summary heap is used instead)
-	if !strings.Contains(cond, "(lambda ") {
+	if !strings.Contains(cond, "(lambda ") && !fr.noAssume {
 		fr.ex.q.assume(implies(o.Reach, cond))
 	}
 	return o
@@ -1143,7 +1144,9 @@ func (fr *Frame) execBlock(b *ssa.BasicBlock) {
 				if li := fr.inLoop[b]; li != nil {
 					cx.old, cx.oldVals, cx.preSt = li.entrySt, li.entryVals, li.preSt
 				}
+				fr.noAssume = c.NoAssume
 				o := fr.oblige("assert", clauseName(c), cx.evalBool(c.Expr), in.Pos())
+				fr.noAssume = false
 				if o != nil {
 					o.Label, o.Mode, o.Slow = c.Label, c.Mode, c.Slow
 				}
